@@ -5,9 +5,9 @@ What is proved here is field-level agreement between the model of package sms an
 layout model Spec/Gsm0340.lean, for every value of each field's domain:
 first octets (all 256), relative validity periods (all 256), numeric addresses (every digit string of
 1..254 digits, leading zeros, odd and even counts), time stamps (every valid civil date and time of
-2000–2099 with a non-negative zone), user data.  The composition of the fields into whole TPDUs
-(`C19_full`) is checked differentially on TPDUs built by the specification (ops smsd / smss); it is stated
-below and NOT claimed as a theorem.  Four classes of the full statement are refuted by proved witnesses
+2000–2099 with a non-negative zone), user data.  Whole TPDUs: `C19_deliver` / `C19_submit` prove decode-to-spec-values and octet-exact
+re-encoding for the sub-domain with numeric addresses (DeliverOK / SubmitOK); the rest of the domain (alphanumeric
+addresses, enhanced validity periods) is checked differentially on TPDUs built by the specification (ops smsd / smss).  Four classes of the full statement are refuted by proved witnesses
 (known findings).
 -/
 import Smpp.Proofs.SmsSpec
@@ -265,6 +265,538 @@ theorem C19_user_data (ud rest : Bytes) (hlen : ud.length ≤ 255) (hne : ud ≠
       rw [hr, List.reverse_reverse]
     rw [this]
 
+/-! ## whole TPDUs: decode to the values laid out, re-encode octet for octet
+
+For numeric addresses (TP-OA / TP-DA / SC address of 1..20 digits, any TON but alphanumeric, any NPI), any PID / DCS, a
+valid time stamp with a non-negative zone, user data of 0..255 octets not ending in 0x00, SMS-DELIVER first octets below
+0x40, SMS-SUBMIT with EVERY first octet and validity period absent / relative (all 256 values) / absolute.  Proved for any
+environment whose Deliver / Submit layouts and flag structs are the regenerated ones, then instantiated.  Outside this
+domain (alphanumeric addresses of 1..3 and 8..11 characters, enhanced validity periods) agreement is differential only. -/
+
+def dFields : List TField := [
+  ⟨"SCAddress", "SC", "", .scaddr, .scaddr⟩, ⟨"Flags", "", "MT", .flags "DeliverFlags", .flags "DeliverFlags"⟩,
+  ⟨"OriginatingAddress", "OA", "", .addr, .addr⟩, ⟨"ProtocolIdentifier", "PID", "", .byte, .byte⟩,
+  ⟨"DataCoding", "DCS", "", .byte, .byte⟩, ⟨"ServiceCentreTimestamp", "SCTS", "", .time, .time⟩,
+  ⟨"UserData", "UD", "", .bytes, .bytes⟩]
+
+theorem deliver_fields : tpduLayouts.find? (·.name == "Deliver") = some ⟨"Deliver", dFields⟩ := by decide +kernel
+
+theorem deliver_flag_kinds : flagKinds flagLayouts "DeliverFlags" = [.mtype, .one, .one, .one, .one] := by decide +kernel
+
+/-- a numeric address of the property's domain -/
+structure NumAddr (a : Address) (ds : List Nat) : Prop where
+  val : a.value = .digits ds
+  ton : a.ton < 8 ∧ a.ton ≠ 5
+  npi : a.npi < 16
+  digits : ∀ d ∈ ds, d ≤ 9
+  len : 1 ≤ ds.length ∧ ds.length ≤ 20
+
+def addrVal (a : Address) (ds : List Nat) : Addr := ⟨UInt8.ofNat a.npi, UInt8.ofNat a.ton, ds.map (· + 48)⟩
+
+/-- getType on a TPDU that starts with a non-empty SC address field: message type from bits 1..0 of the first octet, MT -/
+theorem getType_sc (scf : Bytes) (fo : UInt8) (x : UInt8) (rest : Bytes) (l : UInt8) (body : Bytes)
+    (hsc : scf = l :: body) (hl : l.toNat = body.length) (hpos : 0 < body.length) :
+    getType (scf ++ fo :: x :: rest) = .ok ((fo.toNat % 4 * 2 + 0) % 8, x.toNat > 127) := by
+  subst hsc
+  unfold getType
+  simp only [List.cons_append]
+  have h1 : ¬ ((l :: (body ++ fo :: x :: rest)).length < l.toNat + 3) := by
+    simp only [List.length_cons, List.length_append]; omega
+  simp only [h1, ↓reduceIte]
+  have i1 : (l :: (body ++ fo :: x :: rest))[l.toNat + 1]? = some fo := by
+    rw [hl]; simp
+  have i2 : (l :: (body ++ fo :: x :: rest))[l.toNat + 2]? = some x := by
+    rw [hl]; simp
+  have hz : ¬ (l.toNat = 0) := by omega
+  simp only [idx, i1, i2, hz, ↓reduceIte]
+
+
+/-- the domain on which today's code is right for SMS-DELIVER with numeric addresses (the known findings excluded) -/
+structure DeliverOK (d : Deliver) (scd oad : List Nat) : Prop where
+  sc : NumAddr d.sc scd
+  oa : NumAddr d.oa oad
+  fo : d.firstOctet < 64
+  pid : d.pid < 256
+  dcs : d.dcs < 256
+  year : d.scts.year < 100
+  zone : 0 ≤ d.scts.zone ∧ d.scts.zone < 100
+  civil : ValidCivil (2000 + d.scts.year) d.scts.month d.scts.day d.scts.hour d.scts.minute d.scts.second 0
+  udl : d.udl = d.ud.length ∧ d.ud.length ≤ 255
+  udLast : d.ud.getLast? ≠ some 0
+
+def deliverValue (d : Deliver) (scd oad : List Nat) : Tpdu :=
+  ⟨"Deliver", [.addr (addrVal d.sc scd),
+    .flags (setDirection 0 deliverKinds (unmarshalFlags (UInt8.ofNat (d.firstOctet / 4 * 4)) deliverKinds 0)),
+    .addr (addrVal d.oa oad), .byte (UInt8.ofNat d.pid), .byte (UInt8.ofNat d.dcs),
+    .time ⟨(2000 + d.scts.year : Nat), d.scts.month, d.scts.day, d.scts.hour, d.scts.minute, d.scts.second, 0, d.scts.zone * 900⟩,
+    .bytes d.ud]⟩
+
+theorem rdN_all (ud : Bytes) : rdN ud.length ud = .ok (ud, []) := by
+  cases ud with
+  | nil => simp [rdN]
+  | cons x xs =>
+    have := rdN_exact (x :: xs) [] (by simp)
+    simpa using this
+
+theorem sc_shape (a : Address) (ds : List Nat) (h : NumAddr a ds) :
+    ∃ l body, scAddressField (some a) = l :: body ∧ l.toNat = body.length ∧ 0 < body.length := by
+  obtain ⟨hv, _, _, _, hl⟩ := h
+  refine ⟨UInt8.ofNat (1 + (ds.length + 1) / 2), toa a.ton a.npi :: semiOctets ds, ?_, ?_, by simp⟩
+  · simp [scAddressField, hv]
+  · simp [UInt8.toNat_ofNat', semiOctets_length]; omega
+
+
+theorem numaddr_fields (a : Address) (ds : List Nat) (h : NumAddr a ds) : a = ⟨a.ton, a.npi, .digits ds⟩ := by
+  cases a with
+  | mk t n v => have := h.val; simp only at this; subst this; rfl
+
+
+/-! ### one step of the walk, per field kind (no parameter indicator seen) -/
+
+theorem uf_cons (rev escs fl) (f : TField) (fs : List TField) (st : WalkState) (bs : Bytes) (hpi : st.pi = none) :
+    unmarshalFields rev escs fl (f :: fs) st bs =
+      (match stepField rev escs fl f st bs with
+       | .err e => .err e
+       | .panic s => .panic s
+       | .ok (v, bs', st') =>
+         match unmarshalFields rev escs fl fs st' bs' with
+         | .ok vs => .ok (v :: vs)
+         | .err e => .err e
+         | .panic s => .panic s) := by
+  simp only [unmarshalFields, hpi, Option.isSome_none, Bool.false_and, Bool.false_eq_true, ↓reduceIte]
+  cases stepField rev escs fl f st bs with
+  | ok p => obtain ⟨v, b, s⟩ := p; rfl
+  | err e => rfl
+  | panic s => rfl
+
+theorem sf_scaddr (rev escs fl) (f : TField) (st : WalkState) (bs r : Bytes) (a : Addr) (hk : f.ukind = .scaddr)
+    (h : readSCAddr rev escs bs = .ok (a, r)) : stepField rev escs fl f st bs = .ok (.addr a, r, st) := by
+  simp [stepField, hk, h]
+
+theorem sf_addr (rev escs fl) (f : TField) (st : WalkState) (bs r : Bytes) (a : Addr) (hk : f.ukind = .addr)
+    (h : readAddr rev escs bs = .ok (a, r)) : stepField rev escs fl f st bs = .ok (.addr a, r, st) := by
+  simp [stepField, hk, h]
+
+theorem sf_time (rev escs fl) (f : TField) (st : WalkState) (bs r : Bytes) (t : GoDate) (hk : f.ukind = .time)
+    (h : readTime bs = .ok (t, r)) : stepField rev escs fl f st bs = .ok (.time t, r, st) := by
+  simp [stepField, hk, h]
+
+theorem sf_byte (rev escs fl) (f : TField) (st : WalkState) (b : UInt8) (r : Bytes) (hk : f.ukind = .byte) :
+    stepField rev escs fl f st (b :: r) = .ok (.byte b, r, st) := by
+  simp [stepField, hk, rdByte]
+
+theorem sf_bytes (rev escs fl) (f : TField) (st : WalkState) (l : UInt8) (r d r' : Bytes) (hk : f.ukind = .bytes)
+    (h : rdN l.toNat r = .ok (d, r')) : stepField rev escs fl f st (l :: r) = .ok (.bytes d, r', st) := by
+  simp [stepField, hk, rdByte, h]
+
+theorem sf_flags_mt (rev escs fl) (f : TField) (st : WalkState) (b : UInt8) (r : Bytes) (ty : String) (hk : f.ukind = .flags ty)
+    (hd : f.dir = "MT") (h1 : ty ≠ "SubmitFlags") (h2 : ty ≠ "ParameterIndicator") :
+    stepField rev escs fl f st (b :: r) = .ok (.flags (setDirection 0 (flagKinds fl ty) (unmarshalFlags b (flagKinds fl ty) 0)), r, st) := by
+  simp [stepField, hk, rdByte, hd, h1, h2]
+
+set_option maxHeartbeats 1000000 in
+/-- the walk over the seven fields of SMS-DELIVER, for ANY environment whose Deliver flags are the five fields of DeliverFlags -/
+theorem deliver_walk (e : Env) (hfl : flagKinds e.flagLayouts "DeliverFlags" = deliverKinds)
+    (d : Deliver) (scd oad : List Nat) (h : DeliverOK d scd oad) :
+    unmarshalFields e.rev e.escs e.flagLayouts dFields {} (deliver d) = .ok (deliverValue d scd oad).vals := by
+  obtain ⟨hsc, hoa, hfo, hpid, hdcs, hy, hz, hciv, hudl, hlast⟩ := h
+  have hshape : deliver d = scAddressField (some d.sc) ++ (UInt8.ofNat (d.firstOctet / 4 * 4) :: (addressField d.oa ++
+      (UInt8.ofNat d.pid :: UInt8.ofNat d.dcs :: (timeStampField d.scts ++ (UInt8.ofNat d.udl :: d.ud))))) := by
+    simp [deliver, List.append_assoc]
+  have hsce : d.sc = ⟨d.sc.ton, d.sc.npi, .digits scd⟩ := numaddr_fields _ _ hsc
+  have hoae : d.oa = ⟨d.oa.ton, d.oa.npi, .digits oad⟩ := numaddr_fields _ _ hoa
+  obtain ⟨q, hq, hq100⟩ : ∃ q : Nat, d.scts.zone = (q : Int) ∧ q < 100 := ⟨d.scts.zone.toNat, by omega, by omega⟩
+  have hts : d.scts = ⟨d.scts.year, d.scts.month, d.scts.day, d.scts.hour, d.scts.minute, d.scts.second, (q : Int)⟩ := by
+    rw [← hq]
+  have hudlN : (UInt8.ofNat d.udl).toNat = d.ud.length := by
+    rw [hudl.1]; simp [UInt8.toNat_ofNat']; omega
+  have r1 := Smpp.Sms.sc_decode e.rev e.escs d.sc.ton d.sc.npi scd
+    (UInt8.ofNat (d.firstOctet / 4 * 4) :: (addressField d.oa ++ (UInt8.ofNat d.pid :: UInt8.ofNat d.dcs :: (timeStampField d.scts ++ (UInt8.ofNat d.udl :: d.ud)))))
+    hsc.ton.1 hsc.npi hsc.ton.2 hsc.digits hsc.len
+  rw [← hsce] at r1
+  have r3 := C19_address_numeric_decode e.rev e.escs d.oa.ton d.oa.npi oad
+    (UInt8.ofNat d.pid :: UInt8.ofNat d.dcs :: (timeStampField d.scts ++ (UInt8.ofNat d.udl :: d.ud)))
+    hoa.ton.1 hoa.npi hoa.ton.2 hoa.digits ⟨hoa.len.1, by have := hoa.len.2; omega⟩
+  rw [← hoae] at r3
+  have r6 := C19_timestamp_decode d.scts.year d.scts.month d.scts.day d.scts.hour d.scts.minute d.scts.second q
+    (UInt8.ofNat d.udl :: d.ud) hy hq100 hciv
+  rw [← hts] at r6
+  rw [hshape]
+  unfold dFields
+  rw [uf_cons _ _ _ _ _ _ _ rfl, sf_scaddr _ _ _ _ _ _ _ _ rfl r1]
+  simp only
+  rw [uf_cons _ _ _ _ _ _ _ rfl, sf_flags_mt _ _ _ _ _ _ _ "DeliverFlags" rfl rfl (by decide) (by decide)]
+  simp only
+  rw [uf_cons _ _ _ _ _ _ _ rfl, sf_addr _ _ _ _ _ _ _ _ rfl r3]
+  simp only
+  rw [uf_cons _ _ _ _ _ _ _ rfl, sf_byte _ _ _ _ _ _ _ rfl]
+  simp only
+  rw [uf_cons _ _ _ _ _ _ _ rfl, sf_byte _ _ _ _ _ _ _ rfl]
+  simp only
+  rw [uf_cons _ _ _ _ _ _ _ rfl, sf_time _ _ _ _ _ _ _ _ rfl r6]
+  simp only
+  rw [uf_cons _ _ _ _ _ _ _ rfl, sf_bytes _ _ _ _ _ _ _ _ _ rfl (by rw [hudlN]; exact rdN_all d.ud)]
+  simp only [unmarshalFields, deliverValue, addrVal, hfl, hq]
+
+
+/-- **SMS-DELIVER decodes to the values laid out** (numeric addresses, domain `DeliverOK`), any environment with the Deliver layout -/
+theorem deliver_decode_env (e : Env) (hlay : e.layouts.find? (·.name == "Deliver") = some ⟨"Deliver", dFields⟩)
+    (hfl : flagKinds e.flagLayouts "DeliverFlags" = deliverKinds)
+    (d : Deliver) (scd oad : List Nat) (h : DeliverOK d scd oad) :
+    unmarshal e (deliver d) = .ok (deliverValue d scd oad) := by
+  have hwalk := deliver_walk e hfl d scd oad h
+  obtain ⟨hsc, hoa, hfo, _, _, _, _, _, _, _⟩ := h
+  have hshape : deliver d = scAddressField (some d.sc) ++ (UInt8.ofNat (d.firstOctet / 4 * 4) :: (addressField d.oa ++
+      (UInt8.ofNat d.pid :: UInt8.ofNat d.dcs :: (timeStampField d.scts ++ (UInt8.ofNat d.udl :: d.ud))))) := by
+    simp [deliver, List.append_assoc]
+  have hoaf : addressField d.oa = UInt8.ofNat oad.length :: toa d.oa.ton d.oa.npi :: semiOctets oad := by
+    simp [addressField, hoa.val]
+  obtain ⟨l, body, hscf, hl, hpos⟩ := sc_shape d.sc scd hsc
+  have hfoN : (UInt8.ofNat (d.firstOctet / 4 * 4)).toNat = d.firstOctet / 4 * 4 := by
+    simp [UInt8.toNat_ofNat']; omega
+  have hgt : getType (deliver d) = .ok (0, (UInt8.ofNat oad.length).toNat > 127) := by
+    rw [hshape, hoaf]
+    simp only [List.cons_append]
+    rw [getType_sc _ _ _ _ l body hscf hl hpos, hfoN]
+    have : d.firstOctet / 4 * 4 % 4 = 0 := by omega
+    simp [this]
+  unfold unmarshal
+  rw [hgt]
+  simp only [typeName, ↓reduceIte, hlay, hwalk]
+  rfl
+
+theorem mf_cons (e : Env) (vpf : Nat) (f : TField) (fs : List TField) (v : FVal) (vs : List FVal) (b r : Bytes)
+    (h1 : marshalField e vpf f v = .ok b) (h2 : marshalFields e vpf fs vs = .ok r) :
+    marshalFields e vpf (f :: fs) (v :: vs) = .ok (b ++ r) := by
+  simp [marshalFields, h1, h2]
+
+theorem trim_id (ud : Bytes) (h : ud.getLast? ≠ some 0) : (ud.reverse.dropWhile (· == 0)).reverse = ud := by
+  have hr : ud.reverse.dropWhile (· == 0) = ud.reverse := by
+    cases hrev : ud.reverse with
+    | nil => rfl
+    | cons x xs =>
+      have hx : ud.getLast? = some x := by
+        rw [List.getLast?_eq_head?_reverse, hrev]; rfl
+      have hx0 : x ≠ 0 := by
+        intro h0; rw [h0] at hx; exact h hx
+      have hb : (x == 0) = false := by simpa using hx0
+      simp [List.dropWhile, hb]
+  rw [hr, List.reverse_reverse]
+
+set_option maxHeartbeats 1000000 in
+/-- **and re-encodes octet for octet** -/
+theorem deliver_encode_env (e : Env) (hlay : e.layouts.find? (·.name == "Deliver") = some ⟨"Deliver", dFields⟩)
+    (hfl : flagKinds e.flagLayouts "DeliverFlags" = deliverKinds)
+    (d : Deliver) (scd oad : List Nat) (h : DeliverOK d scd oad) :
+    marshal e (deliverValue d scd oad) = .ok (deliver d) := by
+  obtain ⟨hsc, hoa, hfo, hpid, hdcs, hy, hz, hciv, hudl, hlast⟩ := h
+  have hsce : d.sc = ⟨d.sc.ton, d.sc.npi, .digits scd⟩ := numaddr_fields _ _ hsc
+  have hoae : d.oa = ⟨d.oa.ton, d.oa.npi, .digits oad⟩ := numaddr_fields _ _ hoa
+  obtain ⟨q, hq, hq100⟩ : ∃ q : Nat, d.scts.zone = (q : Int) ∧ q < 100 := ⟨d.scts.zone.toNat, by omega, by omega⟩
+  have hts : d.scts = ⟨d.scts.year, d.scts.month, d.scts.day, d.scts.hour, d.scts.minute, d.scts.second, (q : Int)⟩ := by
+    rw [← hq]
+  have w1 := Smpp.Sms.sc_encode e.rev e.escs d.sc.ton d.sc.npi scd hsc.ton.1 hsc.npi hsc.ton.2 hsc.digits hsc.len
+  rw [← hsce] at w1
+  have w3 := C19_address_numeric_encode e.rev e.escs d.oa.ton d.oa.npi oad hoa.ton.1 hoa.npi hoa.ton.2 hoa.digits
+    ⟨hoa.len.1, by have := hoa.len.2; omega⟩
+  rw [← hoae] at w3
+  have w6 := C19_timestamp_encode d.scts.year d.scts.month d.scts.day d.scts.hour d.scts.minute d.scts.second q hy hq100 hciv
+  rw [← hts, ← hq] at w6
+  have w2 := C19_deliver_first_octet_partial ⟨d.firstOctet / 4 * 4, by omega⟩
+  simp only at w2
+  let fSC : TField := ⟨"SCAddress", "SC", "", .scaddr, .scaddr⟩
+  let fFl : TField := ⟨"Flags", "", "MT", .flags "DeliverFlags", .flags "DeliverFlags"⟩
+  let fOA : TField := ⟨"OriginatingAddress", "OA", "", .addr, .addr⟩
+  let fPID : TField := ⟨"ProtocolIdentifier", "PID", "", .byte, .byte⟩
+  let fDCS : TField := ⟨"DataCoding", "DCS", "", .byte, .byte⟩
+  let fTS : TField := ⟨"ServiceCentreTimestamp", "SCTS", "", .time, .time⟩
+  let fUD : TField := ⟨"UserData", "UD", "", .bytes, .bytes⟩
+  let vFl : FVal := .flags (setDirection 0 deliverKinds (unmarshalFlags (UInt8.ofNat (d.firstOctet / 4 * 4)) deliverKinds 0))
+  let vTS : FVal := .time ⟨(2000 + d.scts.year : Nat), d.scts.month, d.scts.day, d.scts.hour, d.scts.minute, d.scts.second, 0, d.scts.zone * 900⟩
+  have m7 : marshalFields e 0 [fUD] [.bytes d.ud] = .ok ((UInt8.ofNat d.udl :: d.ud) ++ []) :=
+    mf_cons e 0 fUD [] (.bytes d.ud) [] _ [] (by simp [marshalField, fUD, trim_id d.ud hlast, hudl.1]) (by simp [marshalFields])
+  have m6 : marshalFields e 0 [fTS, fUD] [vTS, .bytes d.ud] = .ok (timeStampField d.scts ++ ((UInt8.ofNat d.udl :: d.ud) ++ [])) :=
+    mf_cons e 0 fTS _ vTS _ _ _ (by simp only [marshalField, fTS, vTS, w6]) m7
+  have m5 : marshalFields e 0 [fDCS, fTS, fUD] [.byte (UInt8.ofNat d.dcs), vTS, .bytes d.ud] = .ok ([UInt8.ofNat d.dcs] ++ _) :=
+    mf_cons e 0 fDCS _ _ _ _ _ (by simp [marshalField, fDCS]) m6
+  have m4 : marshalFields e 0 [fPID, fDCS, fTS, fUD] [.byte (UInt8.ofNat d.pid), .byte (UInt8.ofNat d.dcs), vTS, .bytes d.ud] = .ok ([UInt8.ofNat d.pid] ++ _) :=
+    mf_cons e 0 fPID _ _ _ _ _ (by simp [marshalField, fPID]) m5
+  have m3 : marshalFields e 0 [fOA, fPID, fDCS, fTS, fUD] [.addr (addrVal d.oa oad), .byte (UInt8.ofNat d.pid), .byte (UInt8.ofNat d.dcs), vTS, .bytes d.ud]
+      = .ok (addressField d.oa ++ _) :=
+    mf_cons e 0 fOA _ _ _ _ _ (by simp only [marshalField, fOA, addrVal, w3]) m4
+  have m2 : marshalFields e 0 [fFl, fOA, fPID, fDCS, fTS, fUD] [vFl, .addr (addrVal d.oa oad), .byte (UInt8.ofNat d.pid), .byte (UInt8.ofNat d.dcs), vTS, .bytes d.ud]
+      = .ok ([UInt8.ofNat (d.firstOctet / 4 * 4)] ++ _) :=
+    mf_cons e 0 fFl _ vFl _ _ _ (by simp only [marshalField, fFl, vFl, hfl, (by decide : ("DeliverFlags" == "SubmitFlags") = false), Bool.false_eq_true, ↓reduceIte, w2]) m3
+  have m1 : marshalFields e 0 [fSC, fFl, fOA, fPID, fDCS, fTS, fUD]
+      [.addr (addrVal d.sc scd), vFl, .addr (addrVal d.oa oad), .byte (UInt8.ofNat d.pid), .byte (UInt8.ofNat d.dcs), vTS, .bytes d.ud]
+      = .ok (scAddressField (some d.sc) ++ _) :=
+    mf_cons e 0 fSC _ _ _ _ _ (by simp only [marshalField, fSC, addrVal, w1]) m2
+  unfold marshal deliverValue
+  simp only [hlay]
+  have hvpf : vpfOf [FVal.addr (addrVal d.sc scd), vFl, .addr (addrVal d.oa oad), .byte (UInt8.ofNat d.pid), .byte (UInt8.ofNat d.dcs), vTS, .bytes d.ud] = 0 := by
+    simp [vpfOf, vFl, vTS]
+  show marshalFields e (vpfOf [FVal.addr (addrVal d.sc scd), vFl, .addr (addrVal d.oa oad), .byte (UInt8.ofNat d.pid), .byte (UInt8.ofNat d.dcs), vTS, .bytes d.ud])
+    [fSC, fFl, fOA, fPID, fDCS, fTS, fUD] _ = _
+  rw [hvpf, m1]
+  simp [deliver, List.append_assoc]
+
+
+/-! ### SMS-SUBMIT (no SC address) -/
+
+def sFields : List TField := [
+  ⟨"SCAddress", "SC", "", .scaddr, .scaddr⟩, ⟨"Flags", "", "MO", .flags "SubmitFlags", .flags "SubmitFlags"⟩,
+  ⟨"MessageReference", "MR", "", .byte, .byte⟩, ⟨"DestinationAddress", "DA", "", .addr, .addr⟩,
+  ⟨"ProtocolIdentifier", "PID", "", .byte, .byte⟩, ⟨"DataCoding", "DCS", "", .byte, .byte⟩,
+  ⟨"ValidityPeriod", "VP", "", .iface, .iface⟩, ⟨"UserData", "UD", "", .bytes, .bytes⟩]
+
+theorem submit_fields : tpduLayouts.find? (·.name == "Submit") = some ⟨"Submit", sFields⟩ := by decide +kernel
+
+/-- what the decoded flags are, and the validity-period format the walk keeps, for every first octet -/
+theorem submit_flags_fin : ∀ b : Fin 256,
+    (setDirection 1 submitKinds (unmarshalFlags (UInt8.ofNat b.val) submitKinds 0)).getD 2 0 = b.val / 8 % 4 ∧
+    marshalFlags submitKinds ((setDirection 1 submitKinds (unmarshalFlags (UInt8.ofNat b.val) submitKinds 0)).set 2 (b.val / 8 % 4)) 0 = b.val := by
+  decide +kernel
+
+/-- the validity periods of the domain and the values they decode to -/
+inductive VpOK : Validity → VP → Prop where
+  | absent : VpOK .absent .none
+  | relative (n : Nat) : n < 256 → VpOK (.relative n) (.rel (relToSecs n))
+  | absolute (t : TimeStamp) (q : Nat) : t.year < 100 → t.zone = (q : Int) → q < 100 →
+      ValidCivil (2000 + t.year) t.month t.day t.hour t.minute t.second 0 →
+      VpOK (.absolute t) (.abs ⟨(2000 + t.year : Nat), t.month, t.day, t.hour, t.minute, t.second, 0, t.zone * 900⟩)
+
+structure SubmitOK (s : Submit) (dad : List Nat) (v : VP) : Prop where
+  da : NumAddr s.da dad
+  fo : s.firstOctet < 256
+  mr : s.mr < 256
+  pid : s.pid < 256
+  dcs : s.dcs < 256
+  vp : VpOK s.vp v
+  udl : s.udl = s.ud.length ∧ s.ud.length ≤ 255
+  udLast : s.ud.getLast? ≠ some 0
+
+def submitValue (s : Submit) (dad : List Nat) (v : VP) : Tpdu :=
+  ⟨"Submit", [.addr Addr.zero,
+    .flags (setDirection 1 submitKinds (unmarshalFlags (UInt8.ofNat (submitFirstOctet s)) submitKinds 0)),
+    .byte (UInt8.ofNat s.mr), .addr (addrVal s.da dad), .byte (UInt8.ofNat s.pid), .byte (UInt8.ofNat s.dcs),
+    .vp v, .bytes s.ud]⟩
+
+theorem sf_flags_submit (rev escs fl) (f : TField) (st : WalkState) (b : UInt8) (r : Bytes) (hk : f.ukind = .flags "SubmitFlags")
+    (hd : f.dir = "MO") :
+    stepField rev escs fl f st (b :: r) =
+      .ok (.flags (setDirection 1 (flagKinds fl "SubmitFlags") (unmarshalFlags b (flagKinds fl "SubmitFlags") 0)), r,
+        { st with vpf := (setDirection 1 (flagKinds fl "SubmitFlags") (unmarshalFlags b (flagKinds fl "SubmitFlags") 0)).getD 2 0 }) := by
+  simp [stepField, hk, rdByte, hd]
+
+theorem sf_vp_none (rev escs fl) (f : TField) (st : WalkState) (bs : Bytes) (hk : f.ukind = .iface) (hv : st.vpf = 0) :
+    stepField rev escs fl f st bs = .ok (.vp .none, bs, st) := by
+  simp [stepField, hk, hv]
+
+theorem sf_vp_rel (rev escs fl) (f : TField) (st : WalkState) (bs r : Bytes) (dsecs : Nat) (hk : f.ukind = .iface) (ht : f.tp = "VP")
+    (hv : st.vpf = 2) (h : readRel bs = .ok (dsecs, r)) : stepField rev escs fl f st bs = .ok (.vp (.rel dsecs), r, st) := by
+  simp [stepField, hk, hv, ht, h]
+
+theorem sf_vp_abs (rev escs fl) (f : TField) (st : WalkState) (bs r : Bytes) (t : GoDate) (hk : f.ukind = .iface) (ht : f.tp = "VP")
+    (hv : st.vpf = 3) (h : readTime bs = .ok (t, r)) : stepField rev escs fl f st bs = .ok (.vp (.abs t), r, st) := by
+  simp [stepField, hk, hv, ht, h]
+
+theorem uf_cons' (rev escs fl) (f : TField) (fs : List TField) (st : WalkState) (bs : Bytes) (hpi : st.pi = none) :
+    unmarshalFields rev escs fl (f :: fs) st bs =
+      (match stepField rev escs fl f st bs with
+       | .err e => .err e
+       | .panic s => .panic s
+       | .ok (v, bs', st') =>
+         match unmarshalFields rev escs fl fs st' bs' with
+         | .ok vs => .ok (v :: vs)
+         | .err e => .err e
+         | .panic s => .panic s) := uf_cons rev escs fl f fs st bs hpi
+
+/-- the last three fields of SMS-SUBMIT (VP, UD) from a walk state that knows the validity-period format -/
+theorem submit_tail (e : Env) (vp : Validity) (udl : Nat) (ud : Bytes) (v : VP) (st : WalkState) (hpi : st.pi = none) (hvpf : st.vpf = vp.format)
+    (hv : VpOK vp v) (hudl : udl = ud.length ∧ ud.length ≤ 255) :
+    unmarshalFields e.rev e.escs e.flagLayouts
+      [⟨"ValidityPeriod", "VP", "", .iface, .iface⟩, ⟨"UserData", "UD", "", .bytes, .bytes⟩] st
+      (validityField vp ++ (UInt8.ofNat udl :: ud)) = .ok [.vp v, .bytes ud] := by
+  have hudlN : (UInt8.ofNat udl).toNat = ud.length := by
+    rw [hudl.1]; simp [UInt8.toNat_ofNat']; omega
+  have hud : ∀ st' : WalkState, st'.pi = none → unmarshalFields e.rev e.escs e.flagLayouts [⟨"UserData", "UD", "", .bytes, .bytes⟩] st'
+      (UInt8.ofNat udl :: ud) = .ok [.bytes ud] := by
+    intro st' hp
+    rw [uf_cons _ _ _ _ _ _ _ hp, sf_bytes _ _ _ _ _ _ _ _ _ rfl (by rw [hudlN]; exact rdN_all ud)]
+    simp [unmarshalFields]
+  cases hv with
+  | absent =>
+    simp only [Validity.format] at hvpf
+    rw [uf_cons _ _ _ _ _ _ _ hpi, sf_vp_none _ _ _ _ _ _ rfl hvpf]
+    simp only [validityField, List.nil_append]
+    rw [hud st hpi]
+  | relative n hn =>
+    simp only [Validity.format] at hvpf
+    have hr : readRel (validityField (.relative n) ++ (UInt8.ofNat udl :: ud)) = .ok (relToSecs n, UInt8.ofNat udl :: ud) := by
+      simp [readRel, validityField, rdN, UInt8.toNat_ofNat', Nat.mod_eq_of_lt hn]
+    rw [uf_cons _ _ _ _ _ _ _ hpi, sf_vp_rel _ _ _ _ _ _ _ _ rfl rfl hvpf hr]
+    simp only
+    rw [hud st hpi]
+  | absolute t q hy hz hq hc =>
+    simp only [Validity.format] at hvpf
+    have ht : t = ⟨t.year, t.month, t.day, t.hour, t.minute, t.second, (q : Int)⟩ := by rw [← hz]
+    have hr := C19_timestamp_decode t.year t.month t.day t.hour t.minute t.second q (UInt8.ofNat udl :: ud) hy hq hc
+    rw [← ht] at hr
+    rw [hz]
+    rw [uf_cons _ _ _ _ _ _ _ hpi, sf_vp_abs _ _ _ _ _ _ _ _ rfl rfl hvpf (by simpa [validityField] using hr)]
+    simp only
+    rw [hud st hpi]
+    simp
+
+
+theorem sc_none (rev escs) (rest : Bytes) : readSCAddr rev escs (0 :: rest) = .ok (Addr.zero, rest) := by
+  simp [readSCAddr, rdByte]
+
+theorem getType_nosc (fo mr : UInt8) (rest : Bytes) :
+    getType (0 :: fo :: mr :: rest) = .ok ((fo.toNat % 4 * 2 + 1) % 8, mr.toNat > 127) := by
+  simp [getType, idx]
+
+theorem submitFirstOctet_props (s : Submit) (hf : s.vp.format < 4) (hfo : s.firstOctet < 256) :
+    submitFirstOctet s < 256 ∧ submitFirstOctet s % 4 = 1 ∧ submitFirstOctet s / 8 % 4 = s.vp.format := by
+  unfold submitFirstOctet
+  omega
+
+theorem format_lt (vp : Validity) : vp.format < 4 := by cases vp <;> simp [Validity.format]
+
+set_option maxHeartbeats 1000000 in
+theorem submit_walk (e : Env) (hfl : flagKinds e.flagLayouts "SubmitFlags" = submitKinds)
+    (s : Submit) (dad : List Nat) (v : VP) (h : SubmitOK s dad v) :
+    unmarshalFields e.rev e.escs e.flagLayouts sFields {} (submit s) = .ok (submitValue s dad v).vals := by
+  obtain ⟨hda, hfo, hmr, hpid, hdcs, hvp, hudl, hlast⟩ := h
+  have hshape : submit s = 0 :: UInt8.ofNat (submitFirstOctet s) :: UInt8.ofNat s.mr :: (addressField s.da ++
+      (UInt8.ofNat s.pid :: UInt8.ofNat s.dcs :: (validityField s.vp ++ (UInt8.ofNat s.udl :: s.ud)))) := by
+    simp [submit, scAddressField, List.append_assoc]
+  have hdae : s.da = ⟨s.da.ton, s.da.npi, .digits dad⟩ := numaddr_fields _ _ hda
+  have r4 := C19_address_numeric_decode e.rev e.escs s.da.ton s.da.npi dad
+    (UInt8.ofNat s.pid :: UInt8.ofNat s.dcs :: (validityField s.vp ++ (UInt8.ofNat s.udl :: s.ud)))
+    hda.ton.1 hda.npi hda.ton.2 hda.digits ⟨hda.len.1, by have := hda.len.2; omega⟩
+  rw [← hdae] at r4
+  obtain ⟨hlt, _, hfmt⟩ := submitFirstOctet_props s (format_lt s.vp) hfo
+  have hfin := (submit_flags_fin ⟨submitFirstOctet s, hlt⟩).1
+  simp only at hfin
+  rw [hshape]
+  unfold sFields
+  rw [uf_cons _ _ _ _ _ _ _ rfl, sf_scaddr _ _ _ _ _ _ _ _ rfl (sc_none _ _ _)]
+  simp only
+  rw [uf_cons _ _ _ _ _ _ _ rfl, sf_flags_submit _ _ _ _ _ _ _ rfl rfl]
+  simp only [hfl]
+  rw [uf_cons _ _ _ _ _ _ _ rfl, sf_byte _ _ _ _ _ _ _ rfl]
+  simp only
+  rw [uf_cons _ _ _ _ _ _ _ rfl, sf_addr _ _ _ _ _ _ _ _ rfl r4]
+  simp only
+  rw [uf_cons _ _ _ _ _ _ _ rfl, sf_byte _ _ _ _ _ _ _ rfl]
+  simp only
+  rw [uf_cons _ _ _ _ _ _ _ rfl, sf_byte _ _ _ _ _ _ _ rfl]
+  simp only
+  rw [submit_tail e s.vp s.udl s.ud v _ rfl (by simp only; rw [hfin, hfmt]) hvp hudl]
+  simp [submitValue, addrVal]
+
+theorem submit_decode_env (e : Env) (hlay : e.layouts.find? (·.name == "Submit") = some ⟨"Submit", sFields⟩)
+    (hfl : flagKinds e.flagLayouts "SubmitFlags" = submitKinds)
+    (s : Submit) (dad : List Nat) (v : VP) (h : SubmitOK s dad v) :
+    unmarshal e (submit s) = .ok (submitValue s dad v) := by
+  have hwalk := submit_walk e hfl s dad v h
+  have hshape : submit s = 0 :: UInt8.ofNat (submitFirstOctet s) :: UInt8.ofNat s.mr :: (addressField s.da ++
+      (UInt8.ofNat s.pid :: UInt8.ofNat s.dcs :: (validityField s.vp ++ (UInt8.ofNat s.udl :: s.ud)))) := by
+    simp [submit, scAddressField, List.append_assoc]
+  obtain ⟨hlt, hm4, _⟩ := submitFirstOctet_props s (format_lt s.vp) h.fo
+  have hfoN : (UInt8.ofNat (submitFirstOctet s)).toNat = submitFirstOctet s := by
+    simp [UInt8.toNat_ofNat']; omega
+  have hgt : getType (submit s) = .ok (3, (UInt8.ofNat s.mr).toNat > 127) := by
+    rw [hshape, getType_nosc, hfoN, hm4]
+  unfold unmarshal
+  rw [hgt]
+  simp [typeName, hlay, hwalk, submitValue]
+
+
+/-- what Marshal writes for the validity period, and the format it derives from the value's dynamic type -/
+theorem vp_encode (e : Env) (vp : Validity) (v : VP) (vpf : Nat) (ud : Bytes) (h : VpOK vp v) :
+    marshalField e vpf ⟨"ValidityPeriod", "VP", "", .iface, .iface⟩ (.vp v) = .ok (validityField vp) ∧
+    vpfOf [.vp v, .bytes ud] = vp.format := by
+  cases h with
+  | absent => simp [marshalField, validityField, vpfOf, Validity.format]
+  | relative n hn =>
+    have := (C19_relative ⟨n, hn⟩).2
+    simp only at this
+    simp [marshalField, validityField, vpfOf, Validity.format, this]
+  | absolute t q hy hz hq hc =>
+    have w := C19_timestamp_encode t.year t.month t.day t.hour t.minute t.second q hy hq hc
+    have ht : t = ⟨t.year, t.month, t.day, t.hour, t.minute, t.second, (q : Int)⟩ := by rw [← hz]
+    rw [← ht, ← hz] at w
+    simp only [marshalField, validityField, vpfOf, Validity.format, w, and_self]
+
+set_option maxHeartbeats 1000000 in
+theorem submit_encode_env (e : Env) (hlay : e.layouts.find? (·.name == "Submit") = some ⟨"Submit", sFields⟩)
+    (hfl : flagKinds e.flagLayouts "SubmitFlags" = submitKinds)
+    (s : Submit) (dad : List Nat) (v : VP) (h : SubmitOK s dad v) :
+    marshal e (submitValue s dad v) = .ok (submit s) := by
+  obtain ⟨hda, hfo, hmr, hpid, hdcs, hvp, hudl, hlast⟩ := h
+  have hdae : s.da = ⟨s.da.ton, s.da.npi, .digits dad⟩ := numaddr_fields _ _ hda
+  have w4 := C19_address_numeric_encode e.rev e.escs s.da.ton s.da.npi dad hda.ton.1 hda.npi hda.ton.2 hda.digits
+    ⟨hda.len.1, by have := hda.len.2; omega⟩
+  rw [← hdae] at w4
+  obtain ⟨hlt, _, hfmt⟩ := submitFirstOctet_props s (format_lt s.vp) hfo
+  have hfin := (submit_flags_fin ⟨submitFirstOctet s, hlt⟩).2
+  simp only at hfin
+  rw [hfmt] at hfin
+  obtain ⟨wvp, hvf⟩ := vp_encode e s.vp v s.vp.format s.ud hvp
+  let fSC : TField := ⟨"SCAddress", "SC", "", .scaddr, .scaddr⟩
+  let fFl : TField := ⟨"Flags", "", "MO", .flags "SubmitFlags", .flags "SubmitFlags"⟩
+  let fMR : TField := ⟨"MessageReference", "MR", "", .byte, .byte⟩
+  let fDA : TField := ⟨"DestinationAddress", "DA", "", .addr, .addr⟩
+  let fPID : TField := ⟨"ProtocolIdentifier", "PID", "", .byte, .byte⟩
+  let fDCS : TField := ⟨"DataCoding", "DCS", "", .byte, .byte⟩
+  let fVP : TField := ⟨"ValidityPeriod", "VP", "", .iface, .iface⟩
+  let fUD : TField := ⟨"UserData", "UD", "", .bytes, .bytes⟩
+  let vFl : FVal := .flags (setDirection 1 submitKinds (unmarshalFlags (UInt8.ofNat (submitFirstOctet s)) submitKinds 0))
+  let k := s.vp.format
+  have m8 : marshalFields e k [fUD] [.bytes s.ud] = .ok ((UInt8.ofNat s.udl :: s.ud) ++ []) :=
+    mf_cons e k fUD [] (.bytes s.ud) [] _ [] (by simp [marshalField, fUD, trim_id s.ud hlast, hudl.1]) (by simp [marshalFields])
+  have m7 : marshalFields e k [fVP, fUD] [.vp v, .bytes s.ud] = .ok (validityField s.vp ++ _) :=
+    mf_cons e k fVP _ _ _ _ _ wvp m8
+  have m6 : marshalFields e k [fDCS, fVP, fUD] [.byte (UInt8.ofNat s.dcs), .vp v, .bytes s.ud] = .ok ([UInt8.ofNat s.dcs] ++ _) :=
+    mf_cons e k fDCS _ _ _ _ _ (by simp only [marshalField, fDCS]) m7
+  have m5 : marshalFields e k [fPID, fDCS, fVP, fUD] [.byte (UInt8.ofNat s.pid), .byte (UInt8.ofNat s.dcs), .vp v, .bytes s.ud] = .ok ([UInt8.ofNat s.pid] ++ _) :=
+    mf_cons e k fPID _ _ _ _ _ (by simp only [marshalField, fPID]) m6
+  have m4 : marshalFields e k [fDA, fPID, fDCS, fVP, fUD] [.addr (addrVal s.da dad), .byte (UInt8.ofNat s.pid), .byte (UInt8.ofNat s.dcs), .vp v, .bytes s.ud]
+      = .ok (addressField s.da ++ _) :=
+    mf_cons e k fDA _ _ _ _ _ (by simp only [marshalField, fDA, addrVal, w4]) m5
+  have m3 : marshalFields e k [fMR, fDA, fPID, fDCS, fVP, fUD] [.byte (UInt8.ofNat s.mr), .addr (addrVal s.da dad), .byte (UInt8.ofNat s.pid), .byte (UInt8.ofNat s.dcs), .vp v, .bytes s.ud]
+      = .ok ([UInt8.ofNat s.mr] ++ _) :=
+    mf_cons e k fMR _ _ _ _ _ (by simp only [marshalField, fMR]) m4
+  have m2 : marshalFields e k [fFl, fMR, fDA, fPID, fDCS, fVP, fUD] [vFl, .byte (UInt8.ofNat s.mr), .addr (addrVal s.da dad), .byte (UInt8.ofNat s.pid), .byte (UInt8.ofNat s.dcs), .vp v, .bytes s.ud]
+      = .ok ([UInt8.ofNat (submitFirstOctet s)] ++ _) :=
+    mf_cons e k fFl _ vFl _ _ _ (by simp only [marshalField, fFl, vFl, hfl, (by decide : ("SubmitFlags" == "SubmitFlags") = true), ↓reduceIte, k, hfin]) m3
+  have m1 : marshalFields e k [fSC, fFl, fMR, fDA, fPID, fDCS, fVP, fUD]
+      [.addr Addr.zero, vFl, .byte (UInt8.ofNat s.mr), .addr (addrVal s.da dad), .byte (UInt8.ofNat s.pid), .byte (UInt8.ofNat s.dcs), .vp v, .bytes s.ud]
+      = .ok ([0] ++ _) :=
+    mf_cons e k fSC _ _ _ _ _ (by simp [marshalField, fSC, writeSCAddr, Addr.zero]) m2
+  have hk : vpfOf [FVal.addr Addr.zero, vFl, .byte (UInt8.ofNat s.mr), .addr (addrVal s.da dad), .byte (UInt8.ofNat s.pid), .byte (UInt8.ofNat s.dcs), .vp v, .bytes s.ud] = k := by
+    simp only [vpfOf, vFl]
+    exact hvf
+  unfold marshal submitValue
+  simp only [hlay]
+  show marshalFields e (vpfOf [FVal.addr Addr.zero, vFl, .byte (UInt8.ofNat s.mr), .addr (addrVal s.da dad), .byte (UInt8.ofNat s.pid), .byte (UInt8.ofNat s.dcs), .vp v, .bytes s.ud])
+    [fSC, fFl, fMR, fDA, fPID, fDCS, fVP, fUD] _ = _
+  rw [hk, m1]
+  simp [submit, scAddressField, List.append_assoc]
+
+
+/-- **SMS-DELIVER**: decodes to the values laid out and re-encodes octet for octet (domain `DeliverOK`) -/
+theorem C19_deliver (d : Deliver) (scd oad : List Nat) (h : DeliverOK d scd oad) :
+    unmarshal env (deliver d) = .ok (deliverValue d scd oad) ∧ marshal env (deliverValue d scd oad) = .ok (deliver d) :=
+  ⟨deliver_decode_env env deliver_fields rfl d scd oad h, deliver_encode_env env deliver_fields rfl d scd oad h⟩
+
+/-- **SMS-SUBMIT**: the same (domain `SubmitOK`) -/
+theorem C19_submit (s : Submit) (dad : List Nat) (v : VP) (h : SubmitOK s dad v) :
+    unmarshal env (submit s) = .ok (submitValue s dad v) ∧ marshal env (submitValue s dad v) = .ok (submit s) :=
+  ⟨submit_decode_env env submit_fields rfl s dad v h, submit_encode_env env submit_fields rfl s dad v h⟩
+
 /-! ## the full statement (NOT a theorem here) and its refuted classes -/
 
 /-- the first octet of a DELIVER the code can reproduce, etc.: the sub-domain on which no known finding applies -/
@@ -319,5 +851,15 @@ example : (let s : Submit := ⟨0xA5, 7, ⟨0, 1, .digits [0, 0, 1, 2, 3, 4, 5, 
     bytesOf (unmarshal env (submit s)) = .ok (submit s)) := by decide +kernel
 
 example : ValidCivil (2000 + 17) 8 31 11 21 54 0 := ⟨by decide, by decide, by decide, by decide, by decide, by decide, by decide⟩
+
+/-- non-vacuity of the domain of `C19_deliver` -/
+example : DeliverOK sampleDeliver [6, 1, 4, 0, 9, 8, 6, 5, 6, 2, 9] [6, 1, 4, 0, 9, 8, 6, 5, 6, 2, 9] := by
+  refine ⟨⟨rfl, by decide, by decide, by decide, by decide⟩, ⟨rfl, by decide, by decide, by decide, by decide⟩, by decide, by decide,
+    by decide, by decide, by decide, ⟨by decide, by decide, by decide, by decide, by decide, by decide, by decide⟩, by decide, by decide⟩
+
+/-- and of `C19_submit`: 20 digits with leading zeros, relative validity 144 (12 h 30 min) -/
+example : SubmitOK ⟨0xA5, 7, ⟨0, 1, .digits [0, 0, 1, 2, 3, 4, 5, 6, 7, 8, 9, 0, 1, 2, 3, 4, 5, 6, 7, 8]⟩, 0, 8, .relative 144, 4, [0, 0x41, 0, 0x42]⟩
+    [0, 0, 1, 2, 3, 4, 5, 6, 7, 8, 9, 0, 1, 2, 3, 4, 5, 6, 7, 8] (.rel (relToSecs 144)) := by
+  refine ⟨⟨rfl, by decide, by decide, by decide, by decide⟩, by decide, by decide, by decide, by decide, VpOK.relative 144 (by decide), by decide, by decide⟩
 
 end Smpp.Properties.C19
